@@ -27,158 +27,11 @@ PARAMS = ["xorname", "timestamp", "quoting_metrics", "rewards_address"]
 def run(R):
     F = R.F
     history_rules(R)
-    # (1) signed field set
-    bfs = R.body("C13.fields", PQ + "::bytes_for_sig")
-    adt = F.adts.get(PQ)
-    if adt is None:
-        R.viol("C13.fields", "anchor-missing:PaymentQuote", "struct PaymentQuote not found")
-    if bfs is not None and adt is not None:
-        prep(bfs)
-        all_fields = [f["name"] for f in adt["variants"][0]["fields"]]
-        calls = [b for b in bfs.blocks if b["term"]["k"] == "call" and callee_matches(b["term"], [PQ + "::bytes_for_signing"])]
-        ok = len(calls) == 1
-        covered = []
-        if ok:
-            t = calls[0]["term"]
-            for i, f in enumerate(SIGNED):
-                reads = {d for d, root, p in field_reads(bfs, f, roots={1})}
-                a = op_local(t["args"][i]) if i < len(t["args"]) else None
-                if a is None or not (backward(bfs, a) & reads):
-                    ok = False
-                    R.viol("C13.fields", "unsigned-arg:%s" % f, "bytes_for_sig does not pass self.%s as argument %d of bytes_for_signing" % (f, i), bfs, t["l"])
-                else:
-                    covered.append(f)
-        else:
-            R.viol("C13.fields", "signing-call", "bytes_for_sig must call bytes_for_signing exactly once", bfs, bfs.lines[0])
-        unsigned = sorted(set(all_fields) - set(covered))
-        if unsigned != ["pub_key", "signature"]:
-            ok = False
-            R.viol("C13.fields", "unsigned-fields:%s" % ",".join(unsigned), "PaymentQuote fields not covered by the signature are %s (expected only pub_key, signature)" % unsigned, bfs, bfs.lines[0])
-        R.inst("C13.fields", "K6 field coverage", "every PaymentQuote field except pub_key/signature is signed", len(all_fields), ok, {"fields": all_fields, "signed": covered})
-    bsg = R.body("C13.signing", PQ + "::bytes_for_signing")
-    if bsg is not None:
-        prep(bsg)
-        ta = Taint(bsg, through="all")
-        ok = True
-        for i, p in enumerate(PARAMS):
-            seeds = PL(bsg, i)
-            if not seeds or 0 not in ta.closure(seeds):
-                ok = False
-                R.viol("C13.signing", "param-dropped:%s" % p, "parameter `%s` of bytes_for_signing does not flow into the returned bytes" % p, bsg, bsg.lines[0])
-            else:
-                from flow import whole_value_reaches
-                whole, part = whole_value_reaches(bsg, seeds)
-                if not whole:
-                    ok = False
-                    R.viol("C13.signing", "param-partial:%s" % p, "bytes_for_signing covers only part of `%s` (%s), not the whole value" % (p, ", ".join("." + x for x in sorted(part)) or "a projection"), bsg, bsg.lines[0])
-        R.inst("C13.signing", "K6 flows-to", "all four parameters of bytes_for_signing reach the returned buffer", len(PARAMS), ok)
-    h = R.body("C13.hash", PQ + "::hash")
-    if h is not None:
-        prep(h)
-        ta = Taint(h, through="all")
-        hc = [b for b in h.blocks if b["term"]["k"] == "call" and callee_matches(b["term"], ["evmlib::cryptography::hash"])]
-        ok = bool(hc)
-        if ok:
-            arg = op_local(hc[0]["term"]["args"][0])
-            for what, seeds in (("bytes_for_sig()", call_results([PQ + "::bytes_for_sig"])(h)),
-                                ("pub_key", {d for d, _, _ in field_reads(h, "pub_key")}),
-                                ("signature", {d for d, _, _ in field_reads(h, "signature")})):
-                if arg not in ta.closure(seeds) or not seeds:
-                    ok = False
-                    R.viol("C13.hash", "hash-misses:%s" % what, "PaymentQuote::hash does not cover %s" % what, h, h.lines[0])
-        else:
-            R.viol("C13.hash", "hash-call", "PaymentQuote::hash does not call evmlib::cryptography::hash", h, h.lines[0])
-        R.inst("C13.hash", "K6 flows-to", "hash() covers signed bytes, pub_key and signature", 3, ok)
-
-    # (2) verifier
-    chk = R.body("C13.verify", PQ + "::check_is_signed_by_claimed_peer")
-    if chk is not None:
-        prep(chk)
-
-        def src_own(b):
-            return Taint(b).closure(call_results(["*<libp2p_identity::peer_id::PeerId as core::convert::From<libp2p_identity::keypair::PublicKey>>::from",
-                                                  "*PeerId as core::convert::From<libp2p_identity::keypair::PublicKey>>::from"])(b))
-        R.gate("C13.verify", chk, RetSink("true"),
-               [[CallGuard(["libp2p_identity::keypair::PublicKey::try_decode_protobuf"], ("Ok",), "pub_key decodes")],
-                [CmpGuard(src_own, P(1, close=True), "Eq", "PeerId::from(pub_key) == claimed_peer", close=False)],
-                [CallGuard(["libp2p_identity::keypair::PublicKey::verify"], ("true",), "pub_key.verify(bytes, signature)")]],
-               descr="check_is_signed_by_claimed_peer is true only for matching identity and valid signature")
-        ta = Taint(chk, through="all")
-        ver = [b for b in chk.blocks if b["term"]["k"] == "call" and callee_matches(b["term"], ["libp2p_identity::keypair::PublicKey::verify"])]
-        ok = bool(ver)
-        if ok:
-            args = ver[0]["term"]["args"]
-            msg = ta.closure(call_results([PQ + "::bytes_for_sig"])(chk))
-            sig = ta.closure({d for d, _, _ in field_reads(chk, "signature", roots={1})})
-            key = ta.closure(call_results(["libp2p_identity::keypair::PublicKey::try_decode_protobuf"])(chk))
-            ok = op_local(args[0]) in key and op_local(args[1]) in msg and op_local(args[2]) in sig
-        if not ok:
-            R.viol("C13.verify.args", "verify-args", "the signature check does not verify self.signature over bytes_for_sig() with the quote's own pub_key", chk, chk.lines[0])
-        R.inst("C13.verify.args", "K6 flows-to", "verify(key = decoded pub_key, msg = bytes_for_sig(), sig = self.signature)", len(ver), ok)
-
+    quote_binding_rules(R, "C13")
     # (3) proof
     verify_for_rules(R, "C13")
-    qbp = [b for b in F.item(POP + "::quotes_by_peer") if b.kind == "closure"]
-    okq = False
-    for c in qbp:
-        prep(c)
-        eq = [x for x in compare_sites(c) if x["op"] in ("Eq", "Ne")]
-        if eq and any(x["ncallee"] == PQ + "::peer_id" for x in c.calls):
-            okq = R.gate("C13.quotes_by_peer", c, RetSink("Some"),
-                         [[CmpGuard(lambda b: {1}, call_results([PQ + "::peer_id"]), "Eq", "quote.peer_id() == peer", through="all")]],
-                         descr="quotes_by_peer keeps a quote only if its pub_key's peer id equals the asked peer")
-    if not qbp or not any(i["rule"] == "C13.quotes_by_peer" for i in R.instances):
-        R.viol("C13.quotes_by_peer", "filter-missing", "quotes_by_peer has no closure comparing quote.peer_id() with the peer")
-        R.inst("C13.quotes_by_peer", "K4 gate", "quotes_by_peer filter", 0, False)
-
     # (4) expiry / history
-    he = R.body("C13.expiry", PQ + "::has_expired")
-    if he is not None:
-        prep(he)
-        from rules import _chain_calls
-        DEFAULTING = ("::unwrap_or_default", "::unwrap_or", "::unwrap_or_else", "Result::ok", "::map_or", "::map_or_else", "::is_ok_and", "::is_some_and")
-        ok = False
-        chain = []
-        for c in compare_sites(he):
-            for side, other, want in (("a", "b", "Gt"), ("b", "a", "Lt")):
-                k = c[other]
-                if not (k[0] == "c" and "QUOTE_EXPIRATION_SECS" in k[1]) or op_local(c[side]) is None:
-                    continue
-                names, _ = _chain_calls(F, he, op_local(c[side]))
-                chain = names
-                if any(n.endswith("SystemTime::duration_since") for n in names) and c["op"] == want and c["d"] == 0:
-                    ok = True
-        if not ok:
-            R.viol("C13.expiry", "expiry-polarity", "has_expired is not `age_secs(now - timestamp) > QUOTE_EXPIRATION_SECS`", he, he.lines[0])
-        R.inst("C13.expiry", "K10 polarity", "expired ⇔ age > QUOTE_EXPIRATION_SECS (age may come through a helper)", 1, ok, {"chain": chain[:8]})
-        oknow = any(n.endswith("SystemTime::now") for n in chain)
-        if not oknow:
-            R.viol("C13.expiry.now", "age-from-now", "the quote's age is not measured from SystemTime::now()", he, he.lines[0])
-        R.inst("C13.expiry.now", "K6 flows-to", "age = now.duration_since(timestamp)", 1, oknow)
-        # future-dated ⇒ expired: the failure of duration_since must surface as `true`, not be defaulted away
-        erased = [n for n in chain if any(n.endswith(d) for d in DEFAULTING)]
-        direct = any(b["term"]["k"] == "call" and callee_matches(b["term"], ["std::time::SystemTime::duration_since"]) for b in he.blocks)
-        if erased:
-            R.viol("C13.expiry.future", "future-defaulted:%s" % erased[0].split("::")[-1],
-                   "a quote dated in the future is not reported expired: the error of duration_since is replaced by a default (%s) before the comparison" % erased[0], he, he.lines[0])
-            R.inst("C13.expiry.future", "K4 gate", "future-dated quote is reported expired", 0, False)
-        elif direct:
-            R.gate("C13.expiry.future", he, RetSink("true"), [[CallGuard(["std::time::SystemTime::duration_since"], ("Err",), "duration_since(timestamp) is Err (future-dated)")]],
-                   descr="future-dated quote is reported expired")
-        else:
-            # a helper propagates the failure as Err/None: has_expired must turn that into `true`
-            helpers = [n for n in chain if n in F.by_npath and n.startswith("ant_evm::")]
-            gds = [CallGuard([h], (st,), "%s is %s" % (h.split("::")[-1], st)) for h in helpers for st in ("Err", "None")]
-            R.gate("C13.expiry.future", he, RetSink("true"), [gds] if gds else [[CallGuard(["<none>"], ("Err",), "age helper fails")]],
-                   descr="future-dated quote is reported expired (through the age helper's failure)")
-    pe = R.body("C13.expiry.proof", POP + "::has_expired")
-    if pe is not None:
-        R.must_call("C13.expiry.proof", POP + "::has_expired", ["*Iterator::any", "core::iter::traits::iterator::Iterator::any"], "a proof is expired if any quote is")
-        inner = [c for c in F.item(POP + "::has_expired") if c.kind == "closure"]
-        ok = any(any(x["ncallee"] == PQ + "::has_expired" for x in c.calls) for c in inner)
-        if not ok:
-            R.viol("C13.expiry.proof", "any-expired", "ProofOfPayment::has_expired does not test PaymentQuote::has_expired of its quotes", pe, pe.lines[0])
-        R.inst("C13.expiry.proof.any", "K1 must-call", "any(quote.has_expired())", len(inner), ok)
+    expiry_rules(R, "C13")
     nw = R.body("C13.newer", PQ + "::is_newer_than")
     if nw is not None:
         prep(nw)
@@ -346,3 +199,164 @@ def history_rules(R):
     if not okf:
         R.viol("C13.history.flag", "inconsistent-not-flagged", "a quote failing historical_verify against the kept quote is not flagged (record_node_issue) or is stored anyway", vp, vp.lines[0])
     R.inst("C13.history.flag", "K5 must-follow", "kept.historical_verify(incoming) false ⇒ BadQuoting recorded, incoming not stored", len(hvs), okf)
+
+
+def expiry_rules(R, pfx="C13"):
+    """What "expired" means (shared with C03, whose payment check relies on it): older than the window, or future-dated; a proof is
+    expired if any of its quotes is."""
+    F = R.F
+    he = R.body(pfx + ".expiry", PQ + "::has_expired")
+    if he is not None:
+        prep(he)
+        from rules import _chain_calls
+        DEFAULTING = ("::unwrap_or_default", "::unwrap_or", "::unwrap_or_else", "Result::ok", "::map_or", "::map_or_else", "::is_ok_and", "::is_some_and")
+        ok = False
+        chain = []
+        for c in compare_sites(he):
+            for side, other, want in (("a", "b", "Gt"), ("b", "a", "Lt")):
+                k = c[other]
+                if not (k[0] == "c" and "QUOTE_EXPIRATION_SECS" in k[1]) or op_local(c[side]) is None:
+                    continue
+                names, _ = _chain_calls(F, he, op_local(c[side]))
+                chain = names
+                if any(n.endswith("SystemTime::duration_since") for n in names) and c["op"] == want and c["d"] == 0:
+                    ok = True
+        if not ok:
+            R.viol(pfx + ".expiry", "expiry-polarity", "has_expired is not `age_secs(now - timestamp) > QUOTE_EXPIRATION_SECS`", he, he.lines[0])
+        R.inst(pfx + ".expiry", "K10 polarity", "expired ⇔ age > QUOTE_EXPIRATION_SECS (age may come through a helper)", 1, ok, {"chain": chain[:8]})
+        oknow = any(n.endswith("SystemTime::now") for n in chain)
+        if not oknow:
+            R.viol(pfx + ".expiry.now", "age-from-now", "the quote's age is not measured from SystemTime::now()", he, he.lines[0])
+        R.inst(pfx + ".expiry.now", "K6 flows-to", "age = now.duration_since(timestamp)", 1, oknow)
+        # future-dated ⇒ expired: the failure of duration_since must surface as `true`, not be defaulted away
+        erased = [n for n in chain if any(n.endswith(d) for d in DEFAULTING)]
+        direct = any(b["term"]["k"] == "call" and callee_matches(b["term"], ["std::time::SystemTime::duration_since"]) for b in he.blocks)
+        if erased:
+            R.viol(pfx + ".expiry.future", "future-defaulted:%s" % erased[0].split("::")[-1],
+                   "a quote dated in the future is not reported expired: the error of duration_since is replaced by a default (%s) before the comparison" % erased[0], he, he.lines[0])
+            R.inst(pfx + ".expiry.future", "K4 gate", "future-dated quote is reported expired", 0, False)
+        elif direct:
+            R.gate(pfx + ".expiry.future", he, RetSink("true"), [[CallGuard(["std::time::SystemTime::duration_since"], ("Err",), "duration_since(timestamp) is Err (future-dated)")]],
+                   descr="future-dated quote is reported expired")
+        else:
+            # a helper propagates the failure as Err/None: has_expired must turn that into `true`
+            helpers = [n for n in chain if n in F.by_npath and n.startswith("ant_evm::")]
+            gds = [CallGuard([h], (st,), "%s is %s" % (h.split("::")[-1], st)) for h in helpers for st in ("Err", "None")]
+            R.gate(pfx + ".expiry.future", he, RetSink("true"), [gds] if gds else [[CallGuard(["<none>"], ("Err",), "age helper fails")]],
+                   descr="future-dated quote is reported expired (through the age helper's failure)")
+    pe = R.body(pfx + ".expiry.proof", POP + "::has_expired")
+    if pe is not None:
+        R.must_call(pfx + ".expiry.proof", POP + "::has_expired", ["*Iterator::any", "core::iter::traits::iterator::Iterator::any"], "a proof is expired if any quote is")
+        inner = [c for c in F.item(POP + "::has_expired") if c.kind == "closure"]
+        ok = any(any(x["ncallee"] == PQ + "::has_expired" for x in c.calls) for c in inner)
+        if not ok:
+            R.viol(pfx + ".expiry.proof", "any-expired", "ProofOfPayment::has_expired does not test PaymentQuote::has_expired of its quotes", pe, pe.lines[0])
+        R.inst(pfx + ".expiry.proof.any", "K1 must-call", "any(quote.has_expired())", len(inner), ok)
+
+
+def quote_binding_rules(R, pfx="C13"):
+    """A quote is bound to its signer and its signed fields (shared with C03, whose payment check relies on it): field coverage
+    of the signature, the verifier, and quotes_by_peer selecting exactly the quotes whose key belongs to the asked peer."""
+    F = R.F
+    # (1) signed field set
+    bfs = R.body(pfx + ".fields", PQ + "::bytes_for_sig")
+    adt = F.adts.get(PQ)
+    if adt is None:
+        R.viol(pfx + ".fields", "anchor-missing:PaymentQuote", "struct PaymentQuote not found")
+    if bfs is not None and adt is not None:
+        prep(bfs)
+        all_fields = [f["name"] for f in adt["variants"][0]["fields"]]
+        calls = [b for b in bfs.blocks if b["term"]["k"] == "call" and callee_matches(b["term"], [PQ + "::bytes_for_signing"])]
+        ok = len(calls) == 1
+        covered = []
+        if ok:
+            t = calls[0]["term"]
+            for i, f in enumerate(SIGNED):
+                reads = {d for d, root, p in field_reads(bfs, f, roots={1})}
+                a = op_local(t["args"][i]) if i < len(t["args"]) else None
+                if a is None or not (backward(bfs, a) & reads):
+                    ok = False
+                    R.viol(pfx + ".fields", "unsigned-arg:%s" % f, "bytes_for_sig does not pass self.%s as argument %d of bytes_for_signing" % (f, i), bfs, t["l"])
+                else:
+                    covered.append(f)
+        else:
+            R.viol(pfx + ".fields", "signing-call", "bytes_for_sig must call bytes_for_signing exactly once", bfs, bfs.lines[0])
+        unsigned = sorted(set(all_fields) - set(covered))
+        if unsigned != ["pub_key", "signature"]:
+            ok = False
+            R.viol(pfx + ".fields", "unsigned-fields:%s" % ",".join(unsigned), "PaymentQuote fields not covered by the signature are %s (expected only pub_key, signature)" % unsigned, bfs, bfs.lines[0])
+        R.inst(pfx + ".fields", "K6 field coverage", "every PaymentQuote field except pub_key/signature is signed", len(all_fields), ok, {"fields": all_fields, "signed": covered})
+    bsg = R.body(pfx + ".signing", PQ + "::bytes_for_signing")
+    if bsg is not None:
+        prep(bsg)
+        ta = Taint(bsg, through="all")
+        ok = True
+        for i, p in enumerate(PARAMS):
+            seeds = PL(bsg, i)
+            if not seeds or 0 not in ta.closure(seeds):
+                ok = False
+                R.viol(pfx + ".signing", "param-dropped:%s" % p, "parameter `%s` of bytes_for_signing does not flow into the returned bytes" % p, bsg, bsg.lines[0])
+            else:
+                from flow import whole_value_reaches
+                whole, part = whole_value_reaches(bsg, seeds)
+                if not whole:
+                    ok = False
+                    R.viol(pfx + ".signing", "param-partial:%s" % p, "bytes_for_signing covers only part of `%s` (%s), not the whole value" % (p, ", ".join("." + x for x in sorted(part)) or "a projection"), bsg, bsg.lines[0])
+        R.inst(pfx + ".signing", "K6 flows-to", "all four parameters of bytes_for_signing reach the returned buffer", len(PARAMS), ok)
+    h = R.body(pfx + ".hash", PQ + "::hash")
+    if h is not None:
+        prep(h)
+        ta = Taint(h, through="all")
+        hc = [b for b in h.blocks if b["term"]["k"] == "call" and callee_matches(b["term"], ["evmlib::cryptography::hash"])]
+        ok = bool(hc)
+        if ok:
+            arg = op_local(hc[0]["term"]["args"][0])
+            for what, seeds in (("bytes_for_sig()", call_results([PQ + "::bytes_for_sig"])(h)),
+                                ("pub_key", {d for d, _, _ in field_reads(h, "pub_key")}),
+                                ("signature", {d for d, _, _ in field_reads(h, "signature")})):
+                if arg not in ta.closure(seeds) or not seeds:
+                    ok = False
+                    R.viol(pfx + ".hash", "hash-misses:%s" % what, "PaymentQuote::hash does not cover %s" % what, h, h.lines[0])
+        else:
+            R.viol(pfx + ".hash", "hash-call", "PaymentQuote::hash does not call evmlib::cryptography::hash", h, h.lines[0])
+        R.inst(pfx + ".hash", "K6 flows-to", "hash() covers signed bytes, pub_key and signature", 3, ok)
+
+    # (2) verifier
+    chk = R.body(pfx + ".verify", PQ + "::check_is_signed_by_claimed_peer")
+    if chk is not None:
+        prep(chk)
+
+        def src_own(b):
+            return Taint(b).closure(call_results(["*<libp2p_identity::peer_id::PeerId as core::convert::From<libp2p_identity::keypair::PublicKey>>::from",
+                                                  "*PeerId as core::convert::From<libp2p_identity::keypair::PublicKey>>::from"])(b))
+        R.gate(pfx + ".verify", chk, RetSink("true"),
+               [[CallGuard(["libp2p_identity::keypair::PublicKey::try_decode_protobuf"], ("Ok",), "pub_key decodes")],
+                [CmpGuard(src_own, P(1, close=True), "Eq", "PeerId::from(pub_key) == claimed_peer", close=False)],
+                [CallGuard(["libp2p_identity::keypair::PublicKey::verify"], ("true",), "pub_key.verify(bytes, signature)")]],
+               descr="check_is_signed_by_claimed_peer is true only for matching identity and valid signature")
+        ta = Taint(chk, through="all")
+        ver = [b for b in chk.blocks if b["term"]["k"] == "call" and callee_matches(b["term"], ["libp2p_identity::keypair::PublicKey::verify"])]
+        ok = bool(ver)
+        if ok:
+            args = ver[0]["term"]["args"]
+            msg = ta.closure(call_results([PQ + "::bytes_for_sig"])(chk))
+            sig = ta.closure({d for d, _, _ in field_reads(chk, "signature", roots={1})})
+            key = ta.closure(call_results(["libp2p_identity::keypair::PublicKey::try_decode_protobuf"])(chk))
+            ok = op_local(args[0]) in key and op_local(args[1]) in msg and op_local(args[2]) in sig
+        if not ok:
+            R.viol(pfx + ".verify.args", "verify-args", "the signature check does not verify self.signature over bytes_for_sig() with the quote's own pub_key", chk, chk.lines[0])
+        R.inst(pfx + ".verify.args", "K6 flows-to", "verify(key = decoded pub_key, msg = bytes_for_sig(), sig = self.signature)", len(ver), ok)
+
+    qbp = [b for b in F.item(POP + "::quotes_by_peer") if b.kind == "closure"]
+    okq = False
+    for c in qbp:
+        prep(c)
+        eq = [x for x in compare_sites(c) if x["op"] in ("Eq", "Ne")]
+        if eq and any(x["ncallee"] == PQ + "::peer_id" for x in c.calls):
+            okq = R.gate(pfx + ".quotes_by_peer", c, RetSink("Some"),
+                         [[CmpGuard(lambda b: {1}, call_results([PQ + "::peer_id"]), "Eq", "quote.peer_id() == peer", through="all")]],
+                         descr="quotes_by_peer keeps a quote only if its pub_key's peer id equals the asked peer")
+    if not qbp or not any(i["rule"] == pfx + ".quotes_by_peer" for i in R.instances):
+        R.viol(pfx + ".quotes_by_peer", "filter-missing", "quotes_by_peer has no closure comparing quote.peer_id() with the peer")
+        R.inst(pfx + ".quotes_by_peer", "K4 gate", "quotes_by_peer filter", 0, False)
+
